@@ -20,6 +20,12 @@ def gen_case(seed, extra=None):
     if rng.random() < 0.2:
         # several programs simulated one after the other in the same interpreter (as the CLI does for several files)
         seq = [first] + [_gen_lockstep(rng, seed + 1 + i) for i in range(rng.choice([1, 1, 2]))]
+        side = _random.Random(f"sibling|{seed}")
+        if side.random() < 0.4:
+            # the second program is a sibling of the first: same names and conditions, other values / parameters
+            sib = gen.sibling(first["prog"], side)
+            if sib is not None:
+                seq[1] = dict(first, prog=sib, seed=seed + 1)
         if rng.random() < 0.5:
             seq.append(dict(seq[0]))      # the first program once more
         shared = rng.random() < 0.5
